@@ -24,7 +24,8 @@ Delimit Scope name_scope with name.
 String Notation name name_of_bytes bytes_of_name : name_scope.
 
 Inductive atom : Type :=
-| RngTorch                      (* torch's global generator (the one set_random_seed seeds) *)
+| RngTorch                      (* DRAWING from torch's global generator (the one set_random_seed seeds) *)
+| RngReseed                     (* re-seeding / overwriting the state of a torch generator (manual_seed, seed, set_rng_state, the torch.random module) *)
 | RngNumpy                      (* numpy.random global / any numpy generator *)
 | RngPython                     (* Python's random module *)
 | Clock                         (* time / datetime *)
@@ -138,10 +139,17 @@ Definition foreign_source (a : atom) : bool :=
 Definition param_write (a : atom) : bool :=
   match a with ParamWrite | UnknownModule _ => true | _ => false end.
 
-Definition foreign_or_write (a : atom) : bool := foreign_source a || param_write a.
+Definition reseed (a : atom) : bool :=
+  match a with RngReseed | UnknownModule _ => true | _ => false end.
+
+(* forbidden outside the seeding operation: foreign sources and re-seeding of the torch generator *)
+Definition foreign_or_reseed (a : atom) : bool := foreign_source a || reseed a.
+
+(* forbidden in read-only operations: the above and parameter writes *)
+Definition foreign_or_write (a : atom) : bool := foreign_or_reseed a || param_write a.
 
 Definition rng_torch (a : atom) : bool :=
-  match a with RngTorch | UnknownModule _ => true | _ => false end.
+  match a with RngTorch | RngReseed | UnknownModule _ => true | _ => false end.
 
 Definition any_clock (a : atom) : bool :=
   match a with Clock | ClockTimer | UnknownModule _ => true | _ => false end.
@@ -149,13 +157,15 @@ Definition any_clock (a : atom) : bool :=
 (* operation classes of the public API (the translator emits one id list per class) *)
 Inductive opclass : Type :=
 | OSeed | OInit | OLoad | OFit                                   (* may write parameters *)
-| OSample | OStatistics | OObservable | OMetric | ORotation | OSave | OGradient | OEval | OKernel | OData.
+| OSample | OStatistics | OObservable | OMetric | ORotation | OSave | OGradient | OEval | OKernel | OData
+| OOther.        (* every public function the translator could not classify: strictest forbidden set (fail closed) *)
 
 Definition read_only (c : opclass) : bool :=
   match c with OSeed | OInit | OLoad | OFit => false | _ => true end.
 
 Definition forbidden (c : opclass) (a : atom) : bool :=
-  if read_only c then foreign_or_write a else foreign_source a.
+  if read_only c then foreign_or_write a
+  else match c with OSeed => foreign_source a | _ => foreign_or_reseed a end.
 
 (* the decision procedure used by props/C14.v: no atom of the closure of the roots is bad *)
 Definition roots_ok (bad : atom -> bool) (tbl : list fn) (roots : list positive) : bool :=
